@@ -71,7 +71,23 @@ def build_project(seed, flat=False, nfiles=None):
         L.append(f"end module {m}")
         d = "" if flat else rng.choice(["", "a", "b", "c/d"])
         files[os.path.join(d, f"dmod{i}.f90")] = "\n".join(L) + "\n"
+    # two files that define a module of the same name (alternative implementations), both used
+    if rng.random() < 0.6:
+        tags = list(tags) + ["same_module_name_in_two_files"]
+        for k, d in enumerate(["impl_a", "impl_b"]):
+            files[os.path.join("" if flat else d, f"dupmod{k}.f90")] = "\n".join(
+                [f"module dup{sx}", doc(f"variant {k}"), "implicit none", f"integer :: v{k}", doc(), "contains", f"subroutine only_in_{k}()", doc(), f"end subroutine only_in_{k}",
+                 "subroutine in_both()", doc(), "end subroutine in_both", f"end module dup{sx}"]) + "\n"
+        files["dupuser.f90"] = f"module dupuser{sx}\n{doc()}\nuse dup{sx}\nimplicit none\ncontains\nsubroutine du()\n{doc()}\nuse dm{sx}_0, only: base_0\ncall in_both()\nend subroutine du\nend module dupuser{sx}\n"
     files["helper.f90" if "helper.f90" not in files else "helper2.f90"] = f"subroutine helper_{sx}(q)\n{doc()}\ninteger :: q\nend subroutine helper_{sx}\nfunction dup(x)\n{doc()}\ninteger :: x, dup\ndup = x\nend function dup\n"
+    # several free-form extensions in one project
+    if rng.random() < 0.6:
+        tags = list(tags) + ["mixed_extensions"]
+        ren = {}
+        for k in sorted(files):
+            ren[k] = k[:-4] + rng.choice([".f90", ".f90", ".f95", ".f03", ".F90", ".f08"]) if k.endswith(".f90") else k
+        if len({os.path.splitext(v)[0] for v in ren.values()}) == len(ren):
+            files = {ren[k]: v for k, v in files.items()}
     if nfiles is not None:
         keep = sorted(files)[:nfiles]
         # keep a parseable subset: drop files whose modules are used by dropped ones is harmless for FORD
@@ -100,12 +116,22 @@ def write_project(root, files, seed, opts_extra, name="Determinism", pages=True)
         open(os.path.join(pd, "sub", "leaf.md"), "w").write("title: Leaf\n\nText\n")
         opts["page_dir"] = "./pages"
     open(os.path.join(proj, "src", "data.inc"), "w").write("! extra file\n! another line\n")
+    if opts.get("external"):
+        for nm in ("liba", "libb", "libc"):
+            d = os.path.join(proj, "ext", nm)
+            os.makedirs(d, exist_ok=True)
+            mods = [{"name": m, "external_url": f"./module/{m}.html", "obj": "module", "pub_procs": {}, "pub_absints": {}, "pub_types": {}, "pub_vars": {}, "functions": [],
+                     "subroutines": [], "interfaces": [], "absinterfaces": [], "types": [], "variables": [], "permission": "public"} for m in ("zz_unknown_lib_1", "aa_unknown_lib", "only_" + nm)]
+            json.dump({"ford-metadata": {"version": "0"}, "modules": mods}, open(os.path.join(d, "modules.json"), "w"))
     site.write_project_file(proj, opts, body="Front page with [[gen_0]].\n")
     return proj
 
 
-def tree_hash(out):
+def tree_hash(out, root=None):
+    """relative path -> sha256; the absolute location of the project (an input: it shows in links to external projects given as
+    local paths) is replaced by a placeholder"""
     res = {}
+    rb = os.path.realpath(root).encode() if root else None
     for dp, dn, fn in os.walk(out):
         dn.sort()
         for f in fn:
@@ -114,7 +140,10 @@ def tree_hash(out):
             if os.path.islink(p):
                 res[rel] = "link:" + os.readlink(p)
             else:
-                res[rel] = hashlib.sha256(open(p, "rb").read()).hexdigest()
+                data = open(p, "rb").read()
+                if rb and rb in data:
+                    data = data.replace(rb, b"<PROJECT_DIR>")
+                res[rel] = hashlib.sha256(data).hexdigest()
         for d in dn:
             if not os.listdir(os.path.join(dp, d)):
                 res[os.path.relpath(os.path.join(dp, d), out) + "/"] = "emptydir"
@@ -167,6 +196,9 @@ def project_setup(seed, kind, root):
         opts_extra["externalize"] = True
     if rng.random() < 0.3:
         opts_extra["sort"] = rng.choice(["src", "permission", "permission-alpha", "type", "type-alpha"])
+    if rng.random() < 0.35:
+        # several external projects that document equally named modules (which the project uses)
+        opts_extra["external"] = {"liba": "./ext/liba", "libb": "./ext/libb", "libc": "./ext/libc"}
     proj = write_project(root, files, seed, opts_extra)
     return proj, files, tags, opts_extra
 
@@ -174,9 +206,9 @@ def project_setup(seed, kind, root):
 def snapshot(proj):
     out = os.path.join(proj, "doc")
     gdir = os.path.join(proj, "graphs")
-    t = tree_hash(out) if os.path.isdir(out) else {}
+    t = tree_hash(out, proj) if os.path.isdir(out) else {}
     if os.path.isdir(gdir):
-        t.update({"<graph_dir>/" + k: v for k, v in tree_hash(gdir).items()})
+        t.update({"<graph_dir>/" + k: v for k, v in tree_hash(gdir, proj).items()})
     return t
 
 
